@@ -45,6 +45,9 @@ def main(argv=None):
     findings = load_findings()
     open_ids = {fid for fid, f in findings.items() if f.get("status") == "open" and pid in f.get("property", [])}
     jobs = mod.jobs(tier)
+    if tier == "thorough":
+        for j in jobs:
+            j.opts = dict(j.opts, cross_check=True)      # final unsat verdicts are re-decided by cvc5 (first 40 per job)
     if a.only:
         jobs = [j for j in jobs if a.only in j.name]
     extra = []
@@ -73,6 +76,8 @@ def main(argv=None):
     n_obl = 0
     n_dis = 0
     solver_s = 0.0
+    max_q = 0.0
+    cross = {}
     paths = 0
     entered, shims, stubs = set(), {}, {}
     samples = []
@@ -110,6 +115,9 @@ def main(argv=None):
                 print(f"  WARNING witness mismatch in {r['job']['name']}: {json.dumps(mm, default=str)[:400]}", flush=True)
         st = r.get("stats") or {}
         solver_s += st.get("solver_s", 0.0)
+        max_q = max(max_q, st.get("max_query_s", 0.0))
+        for kk, vv in (st.get("cross") or {}).items():
+            cross[kk] = cross.get(kk, 0) + vv
         paths += st.get("paths", 0)
         entered |= set(r.get("entered", []))
         for k, v in r.get("shims", {}).items():
@@ -125,6 +133,8 @@ def main(argv=None):
         f = findings[fid]
         print(f"KNOWN-FINDING: property={pid} {fid}: {f['what']}", flush=True)
 
+    if cross.get("disagree"):
+        inconclusive.append(f"cvc5 answered sat on {cross['disagree']} queries that z3 answered unsat")
     rc = 0
     os.makedirs(os.path.join(VERIF, "replays", pid), exist_ok=True)
     seen_sig = set()
@@ -165,7 +175,9 @@ def main(argv=None):
                       "(identity between the code's term and the oracle's term) are decided syntactically, counted separately (%d) and not "
                       "included in distinct_nontrivial" % tot["trivial"]),
                 decided_by_term_identity=tot["trivial"],
-                queries=tot, paths=paths, jobs=len(results), solver_seconds=round(solver_s, 2),
+                queries=tot, paths=paths, jobs=len(results), solver_seconds=round(solver_s, 2), slowest_query_seconds=round(max_q, 2),
+                per_query_timeout_seconds=60,
+                cvc5_cross_check=({k: (round(v, 1) if isinstance(v, float) else v) for k, v in cross.items()} if cross else "thorough tier only"),
                 stubs_hit=stubs, shims_hit=shims,
                 reachability=dict(jobs_with_satisfiable_path=sum(1 for r in results if r and r["reach"].get("paths_with_model", 0) > 0 or (r and r.get("extra_kind"))),
                                   witness_runs_on_real_code=sum(r["reach"].get("witness_checked", 0) for r in results if r),
@@ -181,7 +193,7 @@ def main(argv=None):
         )
         os.makedirs(os.path.join(VERIF, "evidence"), exist_ok=True)
         json.dump(ev, open(os.path.join(VERIF, "evidence", f"{pid}.json"), "w"), indent=1, default=str)
-    print(f"[{pid}] obligations={n_obl} discharged={n_dis} queries={tot} paths={paths} solver={solver_s:.1f}s wall={wall:.1f}s exit={rc}", flush=True)
+    print(f"[{pid}] obligations={n_obl} discharged={n_dis} queries={tot} paths={paths} solver={solver_s:.1f}s slowest_query={max_q:.1f}s wall={wall:.1f}s exit={rc}", flush=True)
     return rc
 
 
